@@ -44,7 +44,7 @@ Schema ==
         shape |-> << Attr("owner", TEnt("User"), FALSE), Attr("labels", TSetOf(TS), FALSE), Attr("opt", TS, TRUE),
                      Attr("r2", TRec(<<Attr("x", TL, TRUE), Attr("y", TS, TRUE)>>), FALSE) >>, tags |-> TS] >>,
      actions |-> <<
-       [name |-> "view", annos |-> NoA, parents |-> <<>>,
+       [name |-> "view", annos |-> NoA, parents |-> <<[q |-> "G::Action", id |-> "grp"]>>,
         applies |-> [t |-> "some", principals |-> <<Ref("User")>>, resources |-> <<Ref("Doc")>>,
                      context |-> TRec(<<Attr("k", TL, FALSE), Attr("o", TS, TRUE), Attr("e", TEnt("User"), TRUE),
                                        \* one attribute named "r.q" and the path r . q: the same text, different places
@@ -52,7 +52,11 @@ Schema ==
                                        Attr("r", TRec(<<Attr("q", TRec(<<Attr("y", TS, TRUE)>>), FALSE)>>), FALSE)>>)]],
        [name |-> "edit", annos |-> NoA, parents |-> <<[q |-> "", id |-> "all"]>>,
         applies |-> [t |-> "some", principals |-> <<Ref("User"), Ref("Group")>>, resources |-> <<Ref("Doc"), Ref("User")>>, context |-> None]],
-       [name |-> "all", annos |-> NoA, parents |-> <<>>, applies |-> [t |-> "none"]] >>] >>]
+       [name |-> "all", annos |-> NoA, parents |-> <<>>, applies |-> [t |-> "none"]] >>],
+     \* a second namespace: an action group of another action type (G::Action) that view belongs to
+     [name |-> "G", annos |-> NoA, enums |-> <<>>, commons |-> <<>>, entities |-> <<>>,
+      actions |-> << [name |-> "grp", annos |-> NoA, parents |-> <<>>, applies |-> [t |-> "none"]],
+                     [name |-> "other", annos |-> NoA, parents |-> <<>>, applies |-> [t |-> "none"]] >>] >>]
 
 RS == Resolve(Schema).v
 
@@ -73,10 +77,12 @@ D1 == [uid |-> E("Doc", "d1"), parents |-> <<>>, attrs |-> [owner |-> E("User", 
                                                                r2 |-> [k |-> "rec", f |-> [x |-> VInt(1), y |-> VStr(<<121>>)]]],
        tags |-> << <<<<116, 49>>, VStr(<<120>>)>> >>]
 D2 == [uid |-> E("Doc", "d2"), parents |-> <<>>, attrs |-> [owner |-> E("User", "ghost"), labels |-> [k |-> "set", els |-> <<>>], r2 |-> EmptyRec], tags |-> <<>>]
-AView == [uid |-> E("Action", "view"), parents |-> <<>>, attrs |-> <<>>, tags |-> <<>>]
+AView == [uid |-> E("Action", "view"), parents |-> <<E("G::Action", "grp")>>, attrs |-> <<>>, tags |-> <<>>]
+AGrp == [uid |-> E("G::Action", "grp"), parents |-> <<>>, attrs |-> <<>>, tags |-> <<>>]
+AOther == [uid |-> E("G::Action", "other"), parents |-> <<>>, attrs |-> <<>>, tags |-> <<>>]
 AEdit == [uid |-> E("Action", "edit"), parents |-> <<E("Action", "all")>>, attrs |-> <<>>, tags |-> <<>>]
 AAll == [uid |-> E("Action", "all"), parents |-> <<>>, attrs |-> <<>>, tags |-> <<>>]
-Stores == << <<U1, U2, G1, D1, D2, AView, AEdit, AAll>>, <<U2, D2, AView, AEdit, AAll>> >>
+Stores == << <<U1, U2, G1, D1, D2, AView, AEdit, AAll, AGrp, AOther>>, <<U2, D2, AView, AEdit, AAll, AGrp, AOther>> >>
 YS == VRec([y |-> VStr(<<115>>)])
 CtxView == << VRec(("r.q" :> YS) @@ [k |-> VInt(1), r |-> VRec([q |-> EmptyRec])]),
               VRec(("r.q" :> EmptyRec) @@ [k |-> VLong(MaxI64), o |-> VStr(<<115>>), e |-> E("User", "u1"), r |-> VRec([q |-> YS])]) >>
@@ -244,13 +250,31 @@ KindForms ==
      Bin("and", is(R, "User"), Bin("eq", Acc(P, "age"), Acc(R, "age"))),
      Bin("eq", Bin("getTag", P, T1), V(VInt(1))), Bin("and", Bin("hasTag", P, T1), Bin("eq", Bin("getTag", P, T1), V(VInt(1)))),
      Bin("and", is(P, "Group"), Bin("hasTag", P, T1)), Bin("and", Bin("and", is(P, "Group"), Bin("hasTag", P, T1)), Bin("eq", Bin("getTag", P, T1), V(VInt(1)))) >>
+\* tests the validator may wrongly type as constant False -- membership in an action group of another action type,
+\* hasTag on a union of entity types of which one has no tags, has on the least upper bound of records whose common
+\* attribute has incompatible types -- guarding an ill-typed or unsafe use; and calls of unknown functions
+FalseForms ==
+  LET act == Var("action")  grp == V(E("G::Action", "grp"))  other == V(E("G::Action", "other"))
+      recAct == Acc([op |-> "rec", kv |-> <<[key |-> "a", val |-> act]>>], "a")
+      ite(c, t, e) == [op |-> "if", c |-> c, t |-> t, e |-> e]  fl == Acc(P, "flag")
+      bad == Bin("eq", Bin("add", V(VInt(1)), Str(<<120>>)), V(VInt(2)))
+      optUse == Bin("gt", Acc(P, "opt"), V(VInt(1)))
+      union == Acc(ite(fl, [op |-> "rec", kv |-> <<[key |-> "e", val |-> P]>>], [op |-> "rec", kv |-> <<[key |-> "e", val |-> V(E("Group", "g1"))]>>]), "e")
+      recLub == ite(fl, [op |-> "rec", kv |-> <<[key |-> "a", val |-> V(VInt(1))]>>], [op |-> "rec", kv |-> <<[key |-> "a", val |-> Str(<<115>>)]>>])
+      tests == << Bin("in", recAct, grp), Bin("in", act, ite(fl, grp, grp)), Bin("in", act, ite(fl, grp, other)), Bin("in", recAct, other),
+                  Bin("in", act, grp), Bin("in", recAct, [op |-> "set", els |-> <<grp, other>>]),
+                  Bin("hasTag", union, T1), Bin("hasTag", ite(fl, P, V(E("Group", "g1"))), T1),
+                  Has(recLub, "a"), Has(Acc(ite(fl, [op |-> "rec", kv |-> <<[key |-> "r", val |-> recLub]>>], [op |-> "rec", kv |-> <<[key |-> "r", val |-> recLub]>>]), "r"), "a") >> IN
+  Flat([i \in DOMAIN tests |-> << Bin("and", tests[i], bad), Bin("and", tests[i], optUse), ite(tests[i], bad, V(VTrue)), ite(tests[i], optUse, V(VTrue)),
+                                    Bin("or", Un("not", tests[i]), bad), tests[i] >>])
+  \o << Ext("nosuch", <<>>), Bin("eq", Ext("nosuch", <<>>), V(VInt(1))), Bin("and", V(VFalse), Ext("nosuch", <<>>)), Ext("nosuch", <<P, R>>) >>
 Conds ==
   Flat(<< [i \in 1..NL |-> Bin("eq", Leaves[i], Leaves[i])],
           Flat([o \in DOMAIN BinOps |-> Flat([i \in 1..NL |-> [j \in 1..NL |-> Bin(BinOps[o], Leaves[i], Leaves[j])]])]),
           Flat([o \in DOMAIN UnOps |-> [i \in 1..NL |-> Un(UnOps[o], Leaves[i])]]),
           Flat([f \in DOMAIN Ext1 |-> [i \in 1..NL |-> Ext(Ext1[f], <<Leaves[i]>>)]]),
           Flat([f \in DOMAIN Ext2 |-> Flat([a \in DOMAIN Sel |-> [b \in DOMAIN Sel |-> Ext(Ext2[f], <<Leaves[Sel[a]], Leaves[Sel[b]]>>)]])]),
-          InForms \o IsLikeForms \o CapForms \o GuardMatrix \o LubForms \o Guarded >>)
+          FalseForms \o InForms \o IsLikeForms \o CapForms \o GuardMatrix \o LubForms \o Guarded >>)
 \* KindForms are emitted under three action scopes of their own (idx beyond Conds)
 NKind == 3 * Len(KindForms)
 KindPolicy(j) ==        \* j in 1 .. NKind
@@ -259,7 +283,7 @@ KindPolicy(j) ==        \* j in 1 .. NKind
    action |-> CASE sc = 1 -> ScopeEq(E("Action", "edit")) [] sc = 2 -> ScopeAll [] OTHER -> ScopeIn(E("Action", "all")),
    resource |-> ScopeAll, conds |-> <<[kind |-> "when", body |-> KindForms[f]]>>]
 
-NSpecial == Len(Guarded) + Len(GuardMatrix) + Len(LubForms) + Len(CapForms) + Len(InForms) + Len(IsLikeForms)
+NSpecial == Len(Guarded) + Len(GuardMatrix) + Len(LubForms) + Len(CapForms) + Len(InForms) + Len(IsLikeForms) + Len(FalseForms)
 ActionScope(k) == CASE k = 1 -> ScopeEq(E("Action", "view")) [] k = 2 -> ScopeAll [] OTHER -> ScopeIn(E("Action", "all"))
 PolicyOf(i) ==
   [effect |-> "permit", annos |-> <<>>, principal |-> ScopeAll, action |-> ActionScope(IF i > Len(Conds) - NSpecial THEN 1 ELSE IF i % 7 = 0 THEN 2 ELSE IF i % 11 = 0 THEN 3 ELSE 1),
